@@ -1,0 +1,26 @@
+//go:build verif
+
+package nebula
+
+import "sync/atomic"
+
+// Verification yield points. A test installs a callback that may yield, delay or park the calling
+// goroutine at the named point to widen the window between two critical sections.
+const (
+	verifDecryptAfterCheck = iota
+	verifDecryptBeforeUpdate
+	verifSendAfterReserve
+	verifHsBeforeCheckAndComplete
+	verifHsBeforeComplete
+	verifHsAfterAllocIndex
+	verifFwAfterInConnsMiss
+	verifCmBeforeSwapPrimary
+)
+
+var verifHook atomic.Pointer[func(id int)]
+
+func verifPoint(id int) {
+	if h := verifHook.Load(); h != nil {
+		(*h)(id)
+	}
+}
